@@ -178,6 +178,9 @@ def main(tier, replay=None):
             if "{line}" in fmt and text.strip().isdigit():
                 if m.group("line") != text.strip():
                     why.append(f"row {i}: the link of line number {text.strip()!r} points at line {m.group('line')!r}")
+            elif "{line}" in fmt and m.group("line") != "" and not re.search(r"\d", text):
+                # a link that shows no number (a path in a header or a diff-stat line) names no line
+                why.append(f"row {i}: the link around {text!r} shows no line number but points at line {m.group('line')!r}")
         if why:
             chk.violation({"property": PID, "why": "; ".join(why[:3]), "case": c, "args": args_of(c, True), "input": "\n".join(lines)[:3000]})
         if why_known:
